@@ -50,6 +50,18 @@ func I32() int32   { return int32(uint32(next())) }
 func I64() int64   { return int64(next()) }
 func Int() int     { return int(next()) }
 func Bool() bool   { return next() != 0 }
+
+// ByteIn draws a byte of the alphabet: a vector value that already is a member is taken as is (solver
+// models), anything else is reduced into the alphabet (random validation vectors).
+func ByteIn(alphabet string) byte {
+	v := next()
+	for i := 0; i < len(alphabet); i++ {
+		if uint64(alphabet[i]) == v {
+			return alphabet[i]
+		}
+	}
+	return alphabet[v%uint64(len(alphabet))]
+}
 func Bytes(n int) []byte {
 	b := make([]byte, n)
 	for i := range b {
